@@ -19,6 +19,12 @@ ASSUMPTIONS = ["objective totals are compared with 1e-9 relative tolerance (floa
 def gen_cases(rng, n):
     for i in range(n):
         d = problems.rand_small_problem(rng, objectives=(i % 2 == 1))
+        if i % 2 == 1 and rng.random() < 0.25:
+            # the same direct search on a circular problem: totals are those of the evaluations the problem lists
+            d["circular"] = True
+            d["constraints"] = [c for c in d["constraints"] if c["kind"] in ("keep_idx", "keep", "pattern", "gcwin")]
+            d["objectives"] = [o for o in d["objectives"] if o["kind"] in ("pattern_obj", "gc_obj", "keep_obj", "change_obj")] or \
+                [dict(kind="pattern_obj", pattern=problems.rand_pattern(rng), boost=1)]
         if rng.random() < 0.35 and d["constraints"]:
             # focus flags left on the constraints (none / one / several): the search must still test every constraint
             k = rng.choice([1, 1, 2, 3])
@@ -50,7 +56,11 @@ def total(p, s):
     old = p.sequence
     object.__setattr__(p, "sequence", s)
     try:
-        return float(p.objective_scores_sum()), [(float(o.evaluate(p).score), o.best_possible_score) for o in p.objectives]
+        evs = p.objectives_evaluations().evaluations     # what the problem lists (circular view for circular problems)
+        tot = 0
+        for ev in evs:
+            tot = tot + ev.specification.boost * ev.score
+        return float(tot), [(float(ev.score), ev.specification.best_possible_score) for ev in evs]
     finally:
         object.__setattr__(p, "sequence", old)
 
